@@ -18,3 +18,53 @@ seed('S-c01', 'C01', 'codegen.rs reset_accepting_state() removed before directly
      'Q = P-prefix rule with continue_/switch action (no reset_match), next scan fails in a join state', ['C01', 'C10'], [], '')
 seed('S-c08', 'C08', 'lexgen_util backtrack(): the no-saved-match arm no longer resets __state (keeps __initial_state = 0)',
      'InvalidToken through backtrack() with a non-zero stale __state; the next single lexeme is lexed from the stale state', ['C08'], ['C03'], '4 roles reported by C08 (state after the call is not the Init entry)')
+seed('S-c04', 'C04', 'codegen.rs generate_right_ctx_state_char_arms: range guard to a non-accepting context state written as `b <= x && x < e` (upper bound excluded)',
+     'a context with two or more steps whose non-final step is a range, and the input holds exactly the last character of that range (e.g. `@` > [a-z]+ `(` on "@z(")',
+     ['C04'], [], 'first C04 run missed it (too few multi-step contexts with ranges); caught after biasing the context generator to multi-step contexts and short lexemes (4 roles)')
+seed('S-c18', 'C18', 'char_range_gen: surrogate handling through a flag `skipped_surrogates` that is only cleared on the non-matching path',
+     'predicate true at U+E000 whose range ends before char::MAX: the range end is written as U+D7FF', ['C18'], [],
+     'needed the harness to havoc loop-carried variables it does not know (the flag); demo is a #[cfg(test)] module hooked into main.rs (demo_hook.diff), confirmed by the agent and by the native replay of the check',
+     confirm='agent-provided demo (crates/char_range_gen/src/seed_demo.rs hooked in by demo_hook.diff): 5 of 12 tests fail with the change, 12 pass without; the check replays its own counterexample against the natively compiled generator')
+seed('S-c02', 'C02', 'range_map.rs remove_ranges case (1): the removed range is advanced in both sub-branches',
+     'r1 # r2 where a range of r2 covers one range of r1 completely and reaches into the next one, e.g. [a-c e-g] # [a-f]', ['C11'], ['C02'],
+     'this is the other half of the pinned C11 defect; C11 reports 2 roles. The quick C02 lexer family had no such operand at the time; the C11 lexer family added afterwards covers class expressions end to end')
+seed('S-c07', 'C07', 'reset_match() moved from the generated Err arm of backtrack() into Lexer::backtrack before the error is built',
+     'InvalidToken reported through backtrack() with no saved match after at least one consumed character: location is the end of the consumed text', ['C07'], [], '')
+seed('S-c01b', 'C01', 'codegen.rs generate_state: the chain of right-context tests that saves the match is built in reverse priority order',
+     'two right-context rules on the same lexeme whose contexts both hold, plus a longer rule keeping the state non-terminal', ['C04'], ['C01'],
+     'C01 first missed it (its family had no right contexts); a right-context priority family was added to C01 and C04 afterwards - see S-c04b for the re-run')
+seed('S-c06b', 'C06', 'codegen.rs: the Err arm of `match self.0.backtrack()` no longer calls reset_match()',
+     'an InvalidToken through backtrack() followed by another token: its start (and match_loc/match_ in its action) still points at the failed attempt', ['C06', 'C07'], [],
+     'post-state check (match start after the call) plus follow-up call')
+seed('S-c09', 'C09', 'codegen.rs: reset_accepting_state() before a directly-run action removed (third independent occurrence of this mechanism)',
+     '"=="-like token leaves a stale saved match that survives single-character tokens; a later "." not followed by a digit rewinds far back: more than n+1 items', ['C09'], [],
+     'reported as "a saved match survives the call" with a native replay that shows the extra items')
+seed('S-c15', 'C15', 'lexgen_util: derive(Clone) replaced by a manual Clone built on a shared from_parts() constructor that never copies __done',
+     'clone after a `$` rule fired or after the final None: the clone handles end-of-input again', ['C15'], [],
+     'first run was inconclusive (the harness looked for the Lexer struct literal only in new_from_iter_with_state); field discovery now scans the whole dump')
+seed('S-c13', 'C13', 'generated binary_search gets a fast path `c < table[0].0 || c >= table[last].1 => false` (upper bound excluded)',
+     'a class with more than 9 ranges in a non-terminal position ($$whitespace+) and the input is the last character of the table (U+3000)', ['C13'], [],
+     'needed part (b) of C13 (lexers `$$name+` through engine M with the real binary_search) and PtrMetadata/indexing support in the executor')
+seed('S-c14', 'C14', 'lexgen_util: private field ascii_input (true for &str constructors on ASCII input) enables a width fast path placed before the tab branch',
+     'all-ASCII input with a tab, lexer built with new / new_with_state: columns after the tab differ from the iterator constructors', ['C14'], [],
+     'constructor states differ in the new field (symbolic is_ascii); natively confirmed by running all four constructors on short inputs')
+seed('S-c10b', 'C10', 'codegen.rs: reset_match() after Return(res) moved into the Ok arm, so an Err from a fallible action does not reset the match',
+     'a =? rule returns Err and the next match follows immediately: its match_loc()/token span starts at the failed text', ['C10'], ['C06'],
+     'caught after adding fallible logging definitions to the C10 family (post-state + follow-up call)')
+seed('S-c04b', 'C04', 'codegen.rs generate_state: right-context chain for the saved match folded in forward order (same mechanism as S-c01b, found independently)',
+     'two right-context rules accept in one non-terminal state and both contexts hold: the last one wins', ['C04', 'C01'], [], 'caught by the right-context priority family in both checks')
+seed('S-c11b', 'C11', 'regex_to_nfa.rs regex_to_range_map: bracket sets are sorted and coalesced with `last.end = end` instead of max(last.end, end)',
+     'a bracket set used as an operand of `#` in which a character or range is nested strictly inside another range, e.g. [a-z e] # q rejects f..p', ['C11'], [],
+     'caught by part (b) of C11 (class expressions through one-character lexers), added after the first round')
+seed('S-c05b', 'C05', 'codegen.rs generate_state: `__done = true` is only emitted for states with a `$` transition or the Init entry state',
+     'Init has a `$` rule and the input ends inside an unfinished lexeme (or in another rule set without `$`): the `$` rule fires after the InvalidToken', ['C05'], [],
+     'done flag compared after every call; the `$`-variants of the join family provide the definitions')
+seed('S-c02b', 'C02', 'nfa_to_dfa.rs: merging of range targets into char transitions by binary search with `char < range.end` (end excluded)',
+     'a state with a char transition on c and a range of width >= 2 that ends exactly at c, with diverging continuations ([a-c] x | c y rejects "cx")', ['C02', 'C01'], [],
+     'C02 catches it on a bounded-exhaustive tree, C01 on rewind-biased rule sets (5 roles)')
+seed('S-c09b', 'C09', 'codegen.rs: `__done = true` skipped when the end-of-input transition leads to another state',
+     'a definition with `$` under a repetition, e.g. [a-z]+ (\'\\n\' | $)+, and input ending inside that repetition: next() loops forever', [], ['C09'],
+     'NOT DETECTED and outside the claim: the definition is not well-formed in the sense of the properties (`$` only at the tail of a rule): after `$` another iteration may follow. The families never generate `$` before other symbols; on the unmodified tree such definitions already drop the last token')
+seed('S-c03b', 'C03', 'codegen.rs generate_state_arms keeps a match arm for single-predecessor states targeted by an end-of-input transition while renumber_state still counts them as inlined',
+     'a rule in which `$` is followed by something nullable, e.g. \';\' (\'\\n\' | $) \' \'?, placed right before the next rule set: switch() lands in the wrong state', [], ['C03'],
+     'NOT DETECTED and outside the claim for the same reason as S-c09b (`$` not at the tail of the rule); with well-formed definitions the end-of-input target is always a terminal state and the changed code path is never generated')
